@@ -44,23 +44,22 @@ end MakoModel.PyExpr
 namespace MakoModel.PyExpr
 open Generated.PyExpr
 
-def Args.posonlyNames : Args → List Str
-  | .mk posonly _ _ _ _ _ _ => posonly
-
-/-- with the regenerated facts as they are today: the def subtracts / declares its ordinary, `*args`,
-keyword-only and `**kwargs` parameters (positional-only ones never reach `FunctionDecl`) -/
+/-- with the regenerated facts as they are today: the def subtracts / declares its positional-only, ordinary,
+`*args`, keyword-only and `**kwargs` parameters -/
 theorem declField_subtracted (po ar : List Str) (va : Option Str) (ko : List Str) (kd : List (Option Expr))
     (kw : Option Str) (de : List Expr) (x : Str) :
-    x ∈ declField (.mk po ar va ko kd kw de) defTagSubtracted ↔ x ∈ ar ∨ x ∈ va.toList ∨ x ∈ ko ∨ x ∈ kw.toList := by
+    x ∈ declField (.mk po ar va ko kd kw de) defTagSubtracted
+      ↔ x ∈ po ∨ x ∈ ar ∨ x ∈ va.toList ∨ x ∈ ko ∨ x ∈ kw.toList := by
   have h : declField (.mk po ar va ko kd kw de) defTagSubtracted
-      = (ar ++ (va.toList ++ [])) ++ ((ko ++ (kw.toList ++ [])) ++ []) := rfl
-  rw [h]; simp
+      = (po ++ (ar ++ (va.toList ++ []))) ++ ((ko ++ (kw.toList ++ [])) ++ []) := rfl
+  rw [h]; simp [or_assoc]
 
 theorem declField_declared (po ar : List Str) (va : Option Str) (ko : List Str) (kd : List (Option Expr))
     (kw : Option Str) (de : List Expr) (x : Str) :
-    x ∈ declField (.mk po ar va ko kd kw de) defTagDeclared ↔ x ∈ ar ∨ x ∈ va.toList ∨ x ∈ ko ∨ x ∈ kw.toList := by
+    x ∈ declField (.mk po ar va ko kd kw de) defTagDeclared
+      ↔ x ∈ po ∨ x ∈ ar ∨ x ∈ va.toList ∨ x ∈ ko ∨ x ∈ kw.toList := by
   have h : declField (.mk po ar va ko kd kw de) defTagDeclared
-      = (ar ++ (va.toList ++ [])) ++ ((ko ++ (kw.toList ++ [])) ++ []) := rfl
-  rw [h]; simp
+      = (po ++ (ar ++ (va.toList ++ []))) ++ ((ko ++ (kw.toList ++ [])) ++ []) := rfl
+  rw [h]; simp [or_assoc]
 
 end MakoModel.PyExpr
